@@ -349,9 +349,22 @@ def gen_C14(rng, n):
 
 
 # ------------------------------------------------------------------ points
-def rep(rng, K, P):
+def _cube_root_of_unity():
+    g = 2
+    while True:
+        b = pow(g, (q - 1) // 3, q)
+        if b != 1:
+            return b
+        g += 1
+
+
+BETA = _cube_root_of_unity()
+REP_CLASSES = {'z=1': 0.1, 'z=-1': 0.4, 'z=small': 0.5, 'z=1+bu': 0.6, 'z=lambda': 0.9}
+
+
+def rep(rng, K, P, force=None):
     """a representative of affine P: (label, text)"""
-    c = rng.random()
+    c = rng.random() if force is None else REP_CLASSES[force]
     if P is None:
         if c < 0.4:
             return 'O:canonical', jac(K, None)
@@ -398,6 +411,11 @@ def point_pair(rng, K, G):
         return 'opposite', A, pt_neg(K, A)
     if c < 0.5:
         return 'doubled', A, pt_add(K, A, A)
+    if c < 0.56 and A is not None:
+        # same y, different x: the image of A under (x, y) -> (beta*x, y), beta a primitive cube root of unity
+        # of Fq — the case in which only ONE of the two "equal points" tests of a chord addition fires
+        beta = BETA if rng.random() < 0.5 else BETA * BETA % q
+        return 'same-y', A, (K.mul(K.of(beta), A[0]), A[1])
     if c < 0.6:
         return 'identity-right', A, None
     if c < 0.7:
@@ -605,10 +623,31 @@ def gen_pairing(rng, n, entry=None):
 
 
 def gen_C02(rng, n): return gen_pairing(rng, n)
+def gen_rep_sweep(rng):
+    """one pair (P, Q), every class of representative of each operand in turn, one entry point per case
+    (round robin): the property is about exactly this"""
+    out = []
+    A = pt_mul(K1, rng.randrange(1, r), P1)
+    Q = pt_mul(K2, rng.randrange(1, r), P2)
+    k = rng.randrange(3)
+    for cls in ['z=-1', 'z=small', 'z=1+bu', 'z=lambda']:
+        e = ['pairing', 'fast', 'prep'][k % 3]; k += 1
+        out.append((f'pair.{e}:sweep:Q:{cls}', f'pair.{e} {rep(rng, K1, A, "z=1")[1]} {rep(rng, K2, Q, cls)[1]}'))
+    for cls in ['z=-1', 'z=small', 'z=lambda']:
+        e = ['pairing', 'fast', 'prep'][k % 3]; k += 1
+        out.append((f'pair.{e}:sweep:P:{cls}', f'pair.{e} {rep(rng, K1, A, cls)[1]} {rep(rng, K2, Q, "z=1")[1]}'))
+    # the "looks normalised" class against the two entry points that normalise
+    for e in ['fast', 'prep']:
+        out.append((f'pair.{e}:sweep:Q:z=1+bu', f'pair.{e} {rep(rng, K1, A, "z=lambda")[1]} {rep(rng, K2, Q, "z=1+bu")[1]}'))
+    return out
+
+
 def gen_C03(rng, n):
     out = gen_pairing(rng, n)
     for _ in range(max(1, n // 2)):
         out.append(gen_prepared_reuse(rng))
+    for _ in range(max(1, n // 20)):
+        out += gen_rep_sweep(rng)
     return out
 
 
